@@ -3,6 +3,7 @@
 package c05
 
 import (
+	"strings"
 	"context"
 	"errors"
 	"fmt"
@@ -56,6 +57,13 @@ type Case struct {
 	// itself again with SetPanicHandler - a handler that reconfigures the bus
 	// it reports for.  Nothing changes by that.
 	PHResets bool `json:"ph_resets,omitempty"`
+	// SwapAt > 0 (no asynchronous handler in the case, a panic handler
+	// installed): handler SwapAt-1 installs a second panic handler with
+	// SetPanicHandler the first time it runs (reconfiguration from inside a
+	// dispatch, on the publishing goroutine).  Panics from then on - its own
+	// included - are reported to the second one: the handler that is set when
+	// the panic happens.
+	SwapAt int `json:"swap_at,omitempty"`
 	// CancelLast: every publish carries a context of its own, and the last
 	// handler in subscription order - if it is synchronous and panics, and
 	// no handler is asynchronous - cancels that context just before it
@@ -133,6 +141,7 @@ func panicValue(kind string, h, call int) any {
 type pvalList struct{ Codes []int }
 
 type phCall struct {
+	Gen   int // which panic handler was called (1 = the one installed first)
 	EvID  int
 	NumIn int
 	Last  reflect.Type
@@ -178,9 +187,10 @@ func run(c *Case) *vkit.Outcome {
 	for _, h := range c.Handlers {
 		noAsync = noAsync && !h.Async
 	}
-	if c.PanicHandler {
-		thePH = func(event any, ht reflect.Type, v any) {
-			call := phCall{Val: fmt.Sprintf("%T:%v", v, v)}
+	phs := map[int]eventbus.PanicHandler{}
+	mkPH := func(gen int) eventbus.PanicHandler {
+		return func(event any, ht reflect.Type, v any) {
+			call := phCall{Gen: gen, Val: fmt.Sprintf("%T:%v", v, v)}
 			if e, ok := event.(Ev); ok {
 				call.EvID = e.ID
 			} else {
@@ -201,11 +211,19 @@ func run(c *Case) *vkit.Outcome {
 			if c.PHDelayUs > 0 {
 				time.Sleep(time.Duration(c.PHDelayUs) * time.Microsecond)
 			}
-			if c.PHResets && noAsync && busRef != nil {
-				busRef.SetPanicHandler(thePH)
+			if c.PHResets && c.SwapAt == 0 && noAsync && busRef != nil {
+				busRef.SetPanicHandler(phs[gen])
 			}
 		}
+	}
+	if c.PanicHandler {
+		phs[1], phs[2] = mkPH(1), mkPH(2)
+		thePH = phs[1]
 		opts = append(opts, eventbus.WithPanicHandler(thePH))
+	}
+	swapAt := -1
+	if c.SwapAt > 0 && c.SwapAt <= len(c.Handlers) && noAsync && c.PanicHandler && c.NilPH != "unset" {
+		swapAt = c.SwapAt - 1
 	}
 	if !c.PanicHandler && c.NilPH == "option" {
 		opts = append(opts, eventbus.WithPanicHandler(nil))
@@ -242,7 +260,9 @@ func run(c *Case) *vkit.Outcome {
 			syncOrder = append(syncOrder, fmt.Sprintf("%d:%d", hi, id))
 		}
 		mu.Unlock()
-		_ = n
+		if hi == swapAt && n == 1 {
+			busRef.SetPanicHandler(phs[2])
+		}
 		if h.Panic == "always" || (h.Panic == "nth" && id == h.N) {
 			if cancelLast && hi == len(c.Handlers)-1 {
 				if f, ok := cancels.Load(id); ok {
@@ -285,6 +305,7 @@ func run(c *Case) *vkit.Outcome {
 	fired := make([]bool, len(c.Handlers))
 	mcall := make([]int, len(c.Handlers))
 	evType := reflect.TypeOf(Ev{})
+	gen := 1
 
 	liveCtx, liveCancel := context.WithCancel(context.Background())
 	defer liveCancel()
@@ -332,6 +353,11 @@ func run(c *Case) *vkit.Outcome {
 			}
 			fired[hi] = true
 			mcall[hi]++
+			swapsNow := hi == swapAt && mcall[hi] == 1
+			if swapsNow {
+				gen = 2
+				o.Class("panic_handler_replaced_from_inside_a_dispatch")
+			}
 			wantCalls[hi] = append(wantCalls[hi], p)
 			if !h.Async {
 				wantSync = append(wantSync, fmt.Sprintf("%d:%d", hi, p))
@@ -345,7 +371,13 @@ func run(c *Case) *vkit.Outcome {
 				if h.Ctx {
 					numIn = 2
 				}
-				wantPH = append(wantPH, phCall{EvID: p, NumIn: numIn, Last: evType, Kind: reflect.Func, Val: fmt.Sprintf("%T:%v", v, v)})
+				g := gen
+				if swapsNow {
+					// the invocation that replaced the handler: its own panic
+					// may be reported to the old or to the new one
+					g = 0
+				}
+				wantPH = append(wantPH, phCall{Gen: g, EvID: p, NumIn: numIn, Last: evType, Kind: reflect.Func, Val: fmt.Sprintf("%T:%v", v, v)})
 				special := h.Seq || h.Once || h.Async || hi < len(c.Handlers)-1
 				if special && p < c.Publishes {
 					o.Nontrivial = true
@@ -376,18 +408,28 @@ func run(c *Case) *vkit.Outcome {
 		return o
 	}
 	if c.PanicHandler && c.NilPH != "unset" {
-		key := func(c phCall) string { return fmt.Sprintf("%d|%d|%v|%v|%s", c.EvID, c.NumIn, c.Last, c.Kind, c.Val) }
+		key := func(c phCall) string { return fmt.Sprintf("ph%d|%d|%d|%v|%v|%s", c.Gen, c.EvID, c.NumIn, c.Last, c.Kind, c.Val) }
 		var g, w []string
-		for _, x := range ph {
-			g = append(g, key(x))
-		}
+		either := map[string]int{} // keys (without the handler) that either handler may have received
 		for _, x := range wantPH {
+			if x.Gen == 0 {
+				k := key(x)
+				either[k[strings.Index(k, "|"):]]++
+			}
 			w = append(w, key(x))
+		}
+		for _, x := range ph {
+			k := key(x)
+			if rest := k[strings.Index(k, "|"):]; either[rest] > 0 {
+				either[rest]--
+				k = "ph0" + rest
+			}
+			g = append(g, k)
 		}
 		sort.Strings(g)
 		sort.Strings(w)
 		if fmt.Sprint(g) != fmt.Sprint(w) {
-			o.Failf("", "panic handler calls (event|numIn|lastParam|kind|value):\n  got  %v\n  want %v", g, w)
+			o.Failf("", "panic handler calls (which handler|event|numIn|lastParam|kind|value):\n  got  %v\n  want %v", g, w)
 			return o
 		}
 	}
